@@ -456,11 +456,20 @@ macro_rules! runners {
             {
                 let hc = h.clone();
                 let s2 = slot.clone();
-                spawn_client!($lib, slot.clone(), {
-                    let mut hc = hc;
-                    let v = hc.add(0, 0, 1) $($aw)*;
-                    s2.set_value(v);
-                });
+                // kind=unit: the waiting call is one of a method declared `-> ()` (it completes when the method has run)
+                if p.text("kind", "add") == "unit" {
+                    spawn_client!($lib, slot.clone(), {
+                        let mut hc = hc;
+                        let _u: () = hc.unit(0, 0) $($aw)*;
+                        s2.set_value(1);
+                    });
+                } else {
+                    spawn_client!($lib, slot.clone(), {
+                        let mut hc = hc;
+                        let v = hc.add(0, 0, 1) $($aw)*;
+                        s2.set_value(v);
+                    });
+                }
             }
             std::thread::sleep(Duration::from_millis(ms));
             let finished_early = slot.finished();
